@@ -1390,7 +1390,47 @@ KF_MORE = {
 }
 
 
+KF_MORE.update({
+    # --- round 19 (recorded only)
+    'go_acronyms_rewrite_mapping': ({'c/src/lib.rs': '#[typeshare]\npub struct Rec { pub owner: UserId, pub peers: Vec<UserId> }\n', 'typeshare.toml': '[go]\nuppercase_acronyms = ["ID"]\n[go.type_mappings]\nUserId = "pb.UserId"\n'},
+                                    ['-c', 'typeshare.toml', '--lang', 'go', '--go-package', 'p'], 'o.go', r'pb\.UserID', 'the configured type mapping `UserId = "pb.UserId"` is written `pb.UserID`: uppercase_acronyms rewrites the mapped name'),
+    'py_optional_drops_translation': ({'c/src/lib.rs': '#[typeshare]\npub struct Doc { pub created: OffsetDateTime, pub deleted: Option<OffsetDateTime> }\n'}, ['--lang', 'python'], 'o.py',
+                                      r'deleted: Optional\[datetime\] = Field', 'Python writes `created: Annotated[datetime, BeforeValidator(..), PlainSerializer(..)]` but `deleted: Optional[datetime]` without the (de)serialisers: optionality changed the translated type'),
+    'go_no_pointer_slice_positions': ({'c/src/lib.rs': '#[typeshare]\npub struct S { pub tags: Option<Vec<String>>, #[serde(default)] pub labels: Vec<String> }\n', 'typeshare.toml': '[go]\nno_pointer_slice = true\n'},
+                                      ['-c', 'typeshare.toml', '--lang', 'go', '--go-package', 'p'], 'o.go', r'Labels \*\[\]string', 'with no_pointer_slice = true `Option<Vec<String>>` is `[]string` but a `Vec<String>` with serde(default) is still `*[]string`'),
+    'py_generic_algebraic_enum': ({'c/src/lib.rs': '#[typeshare]\n#[serde(tag = "t", content = "c")]\npub enum ApiResult<T, E> { Ok(T), Err(E), Detailed { value: T, errors: Vec<E> } }\n#[typeshare]\npub struct Uses { pub result: ApiResult<String, u32> }\n'},
+                                  ['--lang', 'python'], 'o.py', r'class ApiResultOk\(BaseModel\):', 'Python writes the variant classes of a generic algebraic enum without Generic[..] (`class ApiResultOk(BaseModel): content: T`) while the use site says `ApiResult[str, int]`'),
+    'go_acronym_non_ascii_panic': ({'c/src/lib.rs': '#[typeshare]\npub struct GrBäX { pub x: u8 }\n', 'typeshare.toml': '[go]\nuppercase_acronyms = ["bä"]\n'},
+                                   ['-c', 'typeshare.toml', '--lang', 'go', '--go-package', 'p'], 'o.go', None, 'Go generation panics (byte / character index mix in convert_acronyms_to_uppercase) when an uppercase_acronyms entry contains a non-ASCII letter'),
+    'prefilter_spaced_attribute': ({'c/src/a.rs': '#[typeshare]\npub struct A { pub a: u8 }\n', 'c/src/b.rs': '# [typeshare]\npub struct B { pub b: u8 }\n'}, ['--lang', 'typescript'], 'o.ts',
+                                   r'^(?![\s\S]*interface B)[\s\S]*interface A', 'an item annotated `# [typeshare]` (as quote! prints attributes) is generated when its file also contains the byte sequence `#[typeshare`, but not when it sits in a file of its own: the output depends on how items are split across files'),
+})
+
+
+def kf_hash_order_case(exe):
+    """kf-c06-renamed-reference-hash-order: which of two same-named, differently renamed types a reference resolves to depends on the hash seed"""
+    top = tempfile.mkdtemp(prefix='clirun-', dir=WORK)
+    try:
+        ws = os.path.join(top, 'ws')
+        tree(ws, {'net/src/lib.rs': '#[typeshare]\n#[serde(rename = "NetworkError")]\npub struct Error { pub code: u32 }\n', 'storage/src/lib.rs': '#[typeshare]\n#[serde(rename = "StorageError")]\npub struct Error { pub path: String }\n',
+                  'app/src/download.rs': 'use net::Error;\n#[typeshare]\npub struct DownloadFailed { pub cause: Error }\n', 'app/src/save.rs': 'use storage::Error;\n#[typeshare]\npub struct SaveFailed { pub cause: Error }\n'})
+        seen = set()
+        for k in range(12):
+            outd = os.path.join(top, 'o%d' % k); os.makedirs(outd)
+            rc, out = run(exe, ['--lang', 'typescript', '--output-folder', outd, ws], cwd=ws, timeout=20)
+            p = os.path.join(outd, 'app.ts')
+            if rc == 0 and os.path.exists(p):
+                seen.add(open(p).read())
+        if len(seen) > 1:
+            return '12 identical runs produced %d different app.ts files: `cause: NetworkError` / `cause: StorageError` flip with the hash seed' % len(seen)
+        return None
+    finally:
+        shutil.rmtree(top, ignore_errors=True)
+
+
 def kf_more_case(exe, kind):
+    if kind == 'renamed_reference_hash_order':
+        return kf_hash_order_case(exe)
     files, args, outname, pat, msg = KF_MORE[kind]
     top = tempfile.mkdtemp(prefix='clirun-', dir=WORK)
     try:
@@ -1399,6 +1439,8 @@ def kf_more_case(exe, kind):
         outd = os.path.join(top, 'out'); os.makedirs(outd)
         oargs = ['--output-file', os.path.join(outd, outname)] if outname else ['--output-folder', outd]
         rc, out = run(exe, args + oargs + [ws], cwd=ws, timeout=20)
+        if pat is None:
+            return msg if ('panicked at' in out or rc == 101) else None
         if rc != 0:
             return None
         text = '\n'.join(open(os.path.join(outd, f)).read() for f in sorted(os.listdir(outd)))
@@ -1408,7 +1450,7 @@ def kf_more_case(exe, kind):
 
 
 def kf_case(exe, kind):
-    if kind in KF_MORE:
+    if kind in KF_MORE or kind == 'renamed_reference_hash_order':
         return kf_more_case(exe, kind)
     if kind == 'stdout_pipe':
         return stdout_pipe_case(exe)
